@@ -224,7 +224,8 @@ def consecutiveFrom : Nat → List Entry → Bool
   | i, e :: es => e.index == i && consecutiveFrom (i + 1) es
 
 def validSnap (m : RaftStore) (s : Snap) : Bool :=
-  m.snapshot.index < s.index && s.index < maxU64 && 1 ≤ s.term && s.conf.canonical
+  (m.snapshot.index < s.index || (s.index ≠ 0 && s == m.snapshot)) &&
+  s.index < maxU64 && 1 ≤ s.term && s.conf.canonical
 
 /-- entries of one Save: consecutive indices, terms ≥ 1, start in
     `(snapshotIndex, lastIndex+1]` of the store they are applied to -/
